@@ -73,6 +73,11 @@ def svdKernelDim (tol : K) (m n : ℕ) (s : List K) : ℕ := (n - m) + (s.filter
 def svdKernelRows (tol : K) (m : ℕ) (s : List K) (Vh : Matrix (Fin n) (Fin n) K) : List (Fin n → K) :=
   ((List.finRange n).drop (n - svdKernelDim tol m n s)).map fun i => Vh i
 
+/-- the `m × n` matrix `Σ` of the SVD contract `A = u Σ vh`: the singular values `s`
+(`len(s) = min(m,n)`) on the main diagonal, zero elsewhere -/
+def sigmaMat (m : ℕ) (s : List K) : Matrix (Fin m) (Fin n) K :=
+  fun a i => if a.val = i.val then s.getD i.val 0 else 0
+
 /-! ### spheres -/
 
 /-- `t_pts = points[1:] − points[0]` -/
